@@ -44,6 +44,8 @@ type zzC05Sys struct {
 	upAddr    string
 	upGate    atomic.Pointer[chan struct{}]
 	upCalls   atomic.Int64
+	listGate  atomic.Pointer[chan struct{}]
+	listCalls atomic.Int64
 	upNames   sync.Map
 	listBody  atomic.Value
 	dir       string
@@ -121,6 +123,16 @@ func zzC05Boot(t testing.TB, dir string) (sys *zzC05Sys) {
 	// Filter-list server.
 	sys.listBody.Store("||listed.example^\n||ads.example^\n")
 	sys.listSrv = httptest.NewServer(http.HandlerFunc(func(w http.ResponseWriter, r *http.Request) {
+		// The list server doubles as a scheduler gate for the refresh worker:
+		// a download parks here while an admin operation runs.
+		sys.listCalls.Add(1)
+		if g := sys.listGate.Load(); g != nil {
+			select {
+			case <-*g:
+			case <-time.After(30 * time.Second):
+			}
+		}
+
 		_, _ = io.WriteString(w, sys.listBody.Load().(string))
 	}))
 
@@ -1032,6 +1044,118 @@ func TestZZVerifC05Gated(t *testing.T) {
 			if len(res.Bad) > 0 && strings.HasPrefix(res.Bad[0], "STALL") {
 				return
 			}
+		}
+	}
+
+	// The other direction (Concurrency.tla: FilterRefresh is a multi-step
+	// worker: select lists, download without the lock, apply): the refresh
+	// worker is parked inside a list download while an operation that changes
+	// the set of lists runs to completion, then released.  Neither may panic
+	// or fail to return, and a rule change made afterwards must still reach
+	// the engine that answers DNS.
+	post := http.MethodPost
+	type m = map[string]any
+	runTimed := func(what string, f func()) (bad string) {
+		done := make(chan string, 1)
+		go func() {
+			defer func() {
+				if r := recover(); r != nil {
+					buf := make([]byte, 1<<14)
+					buf = buf[:runtime.Stack(buf, false)]
+					done <- fmt.Sprintf("panic in %s: %v\n%s", what, r, buf)
+
+					return
+				}
+
+				done <- ""
+			}()
+
+			f()
+		}()
+
+		select {
+		case p := <-done:
+			return p
+		case <-time.After(15 * time.Second):
+			buf := make([]byte, 1<<18)
+			buf = buf[:runtime.Stack(buf, true)]
+
+			return "STALL: " + what + " did not return\n" + string(buf)
+		}
+	}
+
+	for i := 0; i < rounds; i++ {
+		res := &gatedRes{Kind: "gated", Family: "FilterLists", Round: 1000 + i}
+		u0, u1 := sys.listSrv.URL+"/extra0.txt", sys.listSrv.URL+"/extra1.txt"
+		zzC05API(post, "/control/filtering/add_url", m{"name": "extra0", "url": u0, "whitelist": false})
+		zzC05API(post, "/control/filtering/add_url", m{"name": "extra1", "url": u1, "whitelist": false})
+		sys.listBody.Store(fmt.Sprintf("||listed.example^\n||ads.example^\n||parked%d.example^\n", i))
+
+		gate := make(chan struct{})
+		l0 := sys.listCalls.Load()
+		sys.listGate.Store(&gate)
+		wdone := make(chan string, 1)
+		go func() {
+			wdone <- runTimed("refresh worker", func() {
+				// The periodic worker, not POST /control/filtering/refresh:
+				// state-changing API calls are serialised by home's
+				// controlLock, so a second one legitimately waits for the
+				// download to end.
+				globalContext.filters.ZZVerifRefreshStep()
+			})
+		}()
+
+		deadline := time.Now().Add(3 * time.Second)
+		for sys.listCalls.Load() == l0 && time.Now().Before(deadline) {
+			time.Sleep(2 * time.Millisecond)
+		}
+
+		res.Parked = sys.listCalls.Load() - l0
+		bad := runTimed("list operation while the refresh worker is parked in a download", func() {
+			switch i % 3 {
+			case 0:
+				zzC05API(post, "/control/filtering/remove_url", m{"url": u1, "whitelist": false})
+			case 1:
+				zzC05API(post, "/control/filtering/remove_url", m{"url": u0, "whitelist": false})
+			default:
+				zzC05API(post, "/control/filtering/remove_url", m{"url": u0, "whitelist": false})
+				zzC05API(post, "/control/filtering/remove_url", m{"url": u1, "whitelist": false})
+			}
+		})
+		if bad != "" {
+			res.Bad = append(res.Bad, bad)
+		}
+
+		sys.listGate.Store(nil)
+		close(gate)
+		if bad = <-wdone; bad != "" {
+			res.Bad = append(res.Bad, bad)
+		}
+
+		// A rule change made now must reach the DNS path.
+		probe := fmt.Sprintf("afterpark%d.example", i)
+		zzC05API(post, "/control/protection", m{"enabled": true})
+		zzC05API(post, "/control/access/set", m{"allowed_clients": []string{}, "disallowed_clients": []string{}, "blocked_hosts": []string{}})
+		zzC05API(post, "/control/filtering/config", m{"enabled": true, "interval": 1})
+		zzC05API(post, "/control/filtering/set_rules", m{"rules": []string{"||custom-blocked.example^", "||" + probe + "^"}})
+		blocked := false
+		for try := 0; try < 100 && !blocked; try++ {
+			c := &dns.Client{Net: "udp", Timeout: 2 * time.Second}
+			r, _, err := c.Exchange((&dns.Msg{}).SetQuestion(dns.Fqdn(probe), dns.TypeA), sys.dnsAddr)
+			blocked = err == nil && len(r.Answer) == 1 && strings.Contains(r.Answer[0].String(), "0.0.0.0")
+			if !blocked {
+				time.Sleep(50 * time.Millisecond)
+			}
+		}
+
+		if !blocked && len(res.Bad) == 0 {
+			res.Bad = append(res.Bad, "rule change after a parked refresh never reached the DNS path: "+probe+" is not blocked after 5s")
+		}
+
+		res.Replies = append(res.Replies, fmt.Sprintf("%s:blocked=%v", probe, blocked))
+		w.put(res)
+		if len(res.Bad) > 0 && strings.HasPrefix(res.Bad[0], "STALL") {
+			return
 		}
 	}
 }
